@@ -72,6 +72,8 @@ def run(pid, tier_, replay=None):
     prof = bp.PROFILES[pid]
     for i in range(nrand):
         scenarios.append(bp.random_scenario(rng, "seeded/%d/%d" % (seed, i), prof))
+    if pid == "C10":
+        scenarios.extend(bp.race_scenarios(rng, 450 if quick else 6000, seed))
     binp_f = pool.submit(bp.build_harness, pid == "C11")
     nbeh = 0
     for k, f in enumerate(sim_futs):
